@@ -24,7 +24,8 @@ class C07(Prop):
         rng = ctx['rng']; tier = ctx['tier']
         n = 250 if tier == 'quick' else 3000
         ts = [t for _, t in gens.corpus() + gens.mixed(rng, n)]
-        cases = [proto.Case('d%d' % i, 'svg:settings', '', t) for i, t in enumerate(ts)]
+        specs = ['', '', 'fs=11', 'fs=20', 'ff=65.66', 'fill=114.101.100', 'sw=1/2', 'scale=3', 'bg=35.102.102.102', 'sc=98.108.117.101', 'st=0', 'bd=0;df=0']
+        cases = [proto.Case('d%d' % i, 'svg:settings', rng.choice(specs), t) for i, t in enumerate(ts)]
         wd = os.path.join(framework.WORK, 'C07_det'); os.makedirs(wd, exist_ok=True)
         failures = []
         ref = None
